@@ -43,6 +43,10 @@ MUTATIONS += [
  dict(name="sig-no-handoff", props=["C10"], edits=[("iv_signal.c", "\t} else if ((this->flags & IV_SIGNAL_FLAG_EXCLUSIVE) && this->active) {\n\t\t__iv_signal_do_wake(iv_signal_tree(this), this->signum);\n\t}", "\t}")]),
  dict(name="sig-dfl-while-interests", props=["C10"], edits=[("iv_signal.c", "\tif (!--total_num_interests[this->signum]) {", "\tif (--total_num_interests[this->signum] <= 1) {")]),
  dict(name="sig-no-owner-pid-test", props=["C10"], edits=[("iv_signal.c", "\tif (sig_owner_pid == 0 || sig_owner_pid != getpid())\n\t\treturn;\n", "")]),
+ dict(name="sig-postfork-keep-thr-tree", props=["C10"], edits=[("iv_signal.c", "\tif (tinfo != NULL)\n\t\ttinfo->thr_sigs.root = NULL;\n}", "\t(void)tinfo;\n}")]),
+ dict(name="sig-postfork-keep-proc-tree", props=["C10"], edits=[("iv_signal.c", "\tprocess_sigs.root = NULL;\n\n\ttinfo = iv_tls_user_ptr", "\ttinfo = iv_tls_user_ptr")]),
+ dict(name="sig-child-mask-block", props=["C10"], edits=[("iv_signal.c", "\tpthr_sigmask(SIG_SETMASK, &sig_mask_fork, NULL);\n}", "\tpthr_sigmask(SIG_BLOCK, &sig_mask_fork, NULL);\n}")]),
+ dict(name="to-relative-stale-clock", props=["C04"], edits=[("iv_private.h", "\t\tif (!st->time_valid) {\n\t\t\tst->time_valid = 1;\n\t\t\tiv_time_get(&st->time);\n\t\t}\n\n\t\tif (timespec_gt(abs, &st->time)) {", "\t\tif (timespec_gt(abs, &st->time)) {")]),
  dict(name="sig-thread-set-not-first", props=["C10"], edits=[("iv_signal.c", "\tif (tinfo == NULL || !__iv_signal_do_wake(&tinfo->thr_sigs, signum)) {", "\tif (1) {")]),
  dict(name="sig-wake-only-first", props=["C10"], edits=[("iv_signal.c", "\t\twoken++;\n\n\t\tif (is->flags & IV_SIGNAL_FLAG_EXCLUSIVE)\n\t\t\tbreak;", "\t\twoken++;\n\n\t\tif (woken)\n\t\t\tbreak;")]),
  dict(name="wait-fork-outside-lock", props=["C11"], edits=[("iv_wait.c", "\t___mutex_lock(&iv_wait_lock);\n\n\tpid = fork();\n\tif (pid < 0) {\n\t\t___mutex_unlock(&iv_wait_lock);", "\tpid = fork();\n\t___mutex_lock(&iv_wait_lock);\n\tif (pid < 0) {\n\t\t___mutex_unlock(&iv_wait_lock);")]),
